@@ -18,6 +18,7 @@ type RichOptions struct {
 	InputDefaults bool
 	Deprecations  bool
 	Newer         bool // @specifiedBy on custom scalars, repeatable directives (October 2021)
+	OddNames      bool // field names with underscores at odd places: _service, _entities, _, f__1, _f1, f1__
 	DirectiveUses bool // applications of custom directives in the SDL (not transported by introspection at all)
 }
 
@@ -177,7 +178,22 @@ func RichSchema(rng *rand.Rand, opt RichOptions) string {
 	ifaceFields := map[string][]fieldSig{}
 	ifaceParents := map[string][]string{}
 	field := func(i int) fieldSig {
-		return fieldSig{fmt.Sprintf("f%d", i), args(), g.wrapT(g.outTys[rng.Intn(len(g.outTys))])}
+		name := fmt.Sprintf("f%d", i)
+		if opt.OddNames && rng.Intn(5) == 0 {
+			// legal names next to the reserved "__" prefix, among them the federation entry points
+			fixed := []string{"_service", "_entities", "_"}
+			switch k := rng.Intn(5); {
+			case k < 2 && i < len(fixed):
+				name = fixed[i]
+			case k == 2:
+				name = fmt.Sprintf("f__%d", i)
+			case k == 3:
+				name = fmt.Sprintf("_f%d", i)
+			default:
+				name = fmt.Sprintf("f%d__", i)
+			}
+		}
+		return fieldSig{name, args(), g.wrapT(g.outTys[rng.Intn(len(g.outTys))])}
 	}
 	writeFields := func(fs []fieldSig) {
 		for _, f := range fs {
